@@ -579,8 +579,12 @@ def translate_unit(repo, unit):
                 if stmts is None:
                     raise Unsupported(f"{rel}::{qual}: block markers {markers!r} not found")
                 body = tr.seq(stmts)
-            src = ast.get_source_segment(text, fn) or ""
-            out.append(f"(* {qual}, lines {fn.lineno}-{fn.end_lineno}, sha1 of its text "
+            if markers is None:
+                src, lo, hi = ast.get_source_segment(text, fn) or "", fn.lineno, fn.end_lineno
+            else:   # a block: identify the block's own text, so that an edit elsewhere in the function leaves the file as is
+                src = "\n".join(ast.get_source_segment(text, st_) or "" for st_ in stmts)
+                lo, hi = stmts[0].lineno, stmts[-1].end_lineno
+            out.append(f"(* {qual}, lines {lo}-{hi}, sha1 of its text "
                        f"{hashlib.sha1(src.encode()).hexdigest()[:12]} *)\n")
             out.append(f"Definition {coqname}_params : list string := {clist([cstr(p) for p in tr.params])}.\n")
             out.append(f"Definition {coqname}_defaults : list (string * expr) := {tr.defaults()}.\n")
